@@ -31,6 +31,8 @@ type conf struct {
 	after   int    // number of sequential calls issued after the close
 	par     int    // callers issuing the post-close call concurrently (1 or 2)
 	timeout int
+	downMs  int // how = "restart": the endpoint refuses connections for this long after the close
+	during  int // calls issued while the endpoint is down (their outcome is not judged)
 }
 
 func scenario(c conf) *vm.Scenario {
@@ -42,6 +44,7 @@ func scenario(c conf) *vm.Scenario {
 			panic(err)
 		}
 		closed := make(chan int64, 8)
+		srvConns, served = nil, 0
 		vm.GoNamed("acceptor", func() { acceptor(c, ln, closed) })
 		sp := tars.NewServantProxy(comm, obj)
 		call := func(tag string, n int) {
@@ -67,8 +70,29 @@ func scenario(c conf) *vm.Scenario {
 		if d := tClose + int64(c.deltaMs)*1e6 - vm.Now(); d > 0 {
 			vm.Sleep(d)
 		}
+		if c.how == "restart" {
+			for i := 0; i < c.during; i++ {
+				i := i
+				vm.GoNamed("downcaller", func() { call(fmt.Sprintf("down%d", i), 50+i) })
+				vm.Sleep(int64(10 * time.Millisecond))
+			}
+			if d := tClose + int64(c.downMs+c.deltaMs)*1e6 - vm.Now(); d > 0 {
+				vm.Sleep(d)
+			}
+		}
 		vm.Log("post-close calls start %dms after close", (vm.Now()-tClose)/1e6)
-		if c.par <= 1 {
+		if c.how == "restart" {
+			// a call that never returns must not hang the scenario: run under a watchdog
+			returned := 0
+			for i := 0; i < c.after; i++ {
+				i := i
+				vm.GoNamed("postcaller", func() { call(fmt.Sprintf("post%d", i), 100+i); returned++ })
+				vm.Sleep(int64(4 * time.Second))
+			}
+			if returned != c.after {
+				vm.Log("call post did-not-return (%d of %d returned)", returned, c.after)
+			}
+		} else if c.par <= 1 {
 			for i := 0; i < c.after; i++ {
 				call(fmt.Sprintf("post%d", i), 100+i)
 			}
@@ -109,9 +133,12 @@ func vnetOpen(clientConnID string) bool {
 	return s != nil && !s.PeerClosed() && !s.LocalClosed()
 }
 
+var served int
+
 func acceptor(c conf, ln vnet.Listener, closed chan int64) {
-	srvConns = map[string]*vnet.TCPConn{}
-	served := 0
+	if srvConns == nil {
+		srvConns = map[string]*vnet.TCPConn{}
+	}
 	for {
 		cn, err := ln.Accept()
 		if err != nil {
@@ -150,6 +177,19 @@ func acceptor(c conf, ln vnet.Listener, closed chan int64) {
 							conn.Close()
 						case "reset":
 							conn.Reset()
+						case "restart":
+							conn.Close()
+							ln.Close()
+							vm.Log("server down")
+							vm.GoNamed("restarter", func() {
+								vm.Sleep(int64(c.downMs) * 1e6)
+								ln2, err := vnet.Listen("tcp", addr)
+								if err != nil {
+									panic(err)
+								}
+								vm.Log("server up")
+								acceptor(c, ln2, closed)
+							})
 						default:
 							conn.Close()
 						}
@@ -192,6 +232,10 @@ func check(c conf, r *vm.Result) string {
 	for _, o := range r.Obs {
 		if strings.HasPrefix(o, "server closed ") {
 			closedConn = strings.TrimPrefix(o, "server closed ")
+		}
+		if strings.HasPrefix(o, "call post did-not-return") {
+			msgs = append(msgs, "call-after-restart-never-returned\n"+o)
+			continue
 		}
 		if strings.HasPrefix(o, "call post") && !strings.Contains(o, " ok ") {
 			msgs = append(msgs, "call-after-server-close-did-not-succeed:"+c.how+"\n"+o)
@@ -249,7 +293,7 @@ func main() {
 		for pol, pn := range []string{"oldest-first", "newest-first", "round-robin"} {
 			cc := c
 			cc.timeout = 3000
-			cc.name = fmt.Sprintf("closeAt=%d how=%s delta=%dms after=%d par=%d bound=%d prune=%v policy=%s", c.closeAt, c.how, c.deltaMs, c.after, c.par, bound, prune, pn)
+			cc.name = fmt.Sprintf("closeAt=%d how=%s delta=%dms after=%d par=%d down=%d during=%d bound=%d prune=%v policy=%s", c.closeAt, c.how, c.deltaMs, c.after, c.par, c.downMs, c.during, bound, prune, pn)
 			cases = append(cases, e1.Case{Sc: scenario(cc), Opt: vm.Options{Bound: bound, StrictDev: true, Prune: prune, Policy: pol}, Budget: budget, MinOutcomes: 1})
 		}
 	}
@@ -270,6 +314,12 @@ func main() {
 		add(conf{closeAt: 1, how: how, deltaMs: 1, after: 1, par: 2}, 1, false)
 		if run.Thorough() {
 			add(conf{closeAt: 1, how: how, deltaMs: 999, after: 1, par: 2}, 2, true)
+		}
+	}
+	// restart: the endpoint is unreachable for a while; calls made meanwhile may fail, calls after it must succeed
+	for _, during := range []int{0, 1, 2} {
+		for _, d := range []int{1, 1200} {
+			add(conf{closeAt: 1, how: "restart", deltaMs: d, after: 2, par: 1, downMs: 500, during: during}, 1, false)
 		}
 	}
 	e1.Main(run, cases, []string{
